@@ -6,6 +6,8 @@ These should be present in all spec compliant servers.
 """
 from typing import Optional, Union
 
+from ..exc import ResolverError
+
 from .scalars import Boolean, String
 from .types import (
     Argument,
@@ -336,9 +338,18 @@ def _format_default_value(
 
     # Strings stay strings at every depth (as at the top level above): the
     # reported text must read back as the declared value for any scalar.
-    return print_ast(
-        ast_node_from_value(dv, input_value.type, numeric_strings=False)
-    )
+    try:
+        return print_ast(
+            ast_node_from_value(dv, input_value.type, numeric_strings=False)
+        )
+    except (ValueError, TypeError) as err:
+        # Some values have no literal spelling (e.g. a dict default of a JSON
+        # like scalar with keys which are not names): report a field error for
+        # this default instead of failing the whole request.
+        raise ResolverError(
+            'Default value of "%s" cannot be expressed as a GraphQL literal (%s)'
+            % (input_value.name, err)
+        )
 
 
 __InputValue__ = ObjectType(
